@@ -32,6 +32,7 @@ WEAK = [
     ("Weak_PruneDropsCheckpoint", "store", None),
     ("Weak_NoCheckpointRecord", "store", None),
     ("Weak_RecoveryCopyDropsValUpdates", "store", None),
+    ("Weak_RoundSkipSingleIncrement", "store", "ProposerDeterministic"),
 ]
 
 REAL_CKPT = 100000
@@ -52,7 +53,7 @@ def _tier(ctx):
             store=[{"Scenario": 1, "Checkpoint": 4, "InitialHeight": 2, "MaxBlocks": 4},
                    {"Scenario": 2, "Checkpoint": 3, "InitialHeight": 1, "MaxBlocks": 2},
                    {"Scenario": 3, "Checkpoint": 5, "InitialHeight": 4, "MaxBlocks": 3}],
-            store_sim=0, random_types=100, extreme=150, random_store=40)
+            store_sim=0, random_types=100, extreme=150, random_store=40, rs_chains=200, rs_random=100)
     return dict(
         update=[{"Pool": 4, "MaxInit": 3, "Warmups": "{4}", "InitPowers": "{1, 2, 10}",
                  "ChangePowers": "{0, 1, 10}", "MaxChanges": 2, "FirstBatches": 1},
@@ -66,7 +67,7 @@ def _tier(ctx):
                {"Scenario": 2, "Checkpoint": 3, "InitialHeight": 1, "MaxBlocks": 5, "GraphBlocks": 3},
                {"Scenario": 3, "Checkpoint": 5, "InitialHeight": 4, "MaxBlocks": 5, "GraphBlocks": 4},
                {"Scenario": 2, "Checkpoint": 1000, "InitialHeight": 1, "MaxBlocks": 4, "GraphBlocks": 3}],
-        store_sim=150, random_types=2000, extreme=3000, random_store=600)
+        store_sim=150, random_types=2000, extreme=3000, random_store=600, rs_chains=1500, rs_random=1500)
 
 
 def _case_of(cs):
@@ -136,6 +137,49 @@ def _run_store(ctx, binp, inp_obj, label):
     return core.read_ndjson(os.path.join(out, "store.ndjson"))
 
 
+def _run_roundskip(ctx, binp, inp_obj, label):
+    inp = os.path.join(ctx.work, "c08-rs-%s.json" % label)
+    with open(inp, "w") as f:
+        json.dump(inp_obj, f)
+    out = ctx.subdir("c08-rs-" + label)
+    rc, txt = ctx.run_test(binp, "^TestVerifC08RoundSkip$", {"VERIF_IN": inp, "VERIF_OUT": out}, label="roundskip-" + label)
+    if rc != 0:
+        ctx.save_log("harness-roundskip", txt)
+        raise Undecided("C08 round-skip harness failed (rc=%d): %s" % (rc, txt[-1500:]))
+    return core.read_ndjson(os.path.join(out, "roundskip.ndjson"))
+
+
+# validator-set histories whose sets are handed to a real consensus.State that then skips rounds
+DIRECTED_CHAINS = [
+    {"init": [{"a": 1, "p": 10}, {"a": 2, "p": 10}, {"a": 3, "p": 10}], "warm": 1,
+     "batches": [[{"a": 3, "p": 2}], [{"a": 1, "p": 0}, {"a": 4, "p": 1}], []]},
+    {"init": [{"a": 1, "p": 5}, {"a": 2, "p": 7}, {"a": 3, "p": 2}], "warm": 1,
+     "batches": [[{"a": 1, "p": 11}], [{"a": 1, "p": 1}], []]},
+]
+
+
+def _roundskip_chains(rot_cases, store_scheds, cap):
+    chains, seen = [], set()
+
+    def add(c):
+        k = json.dumps(c, sort_keys=True)
+        if k not in seen:
+            seen.add(k)
+            chains.append(c)
+
+    for c in DIRECTED_CHAINS:
+        add(c)
+    for s in store_scheds:
+        if len(chains) >= 2 + cap // 2:
+            break
+        add({"init": s["genesis"], "warm": 1, "batches": [o["batch"] for o in s["ops"] if o["op"] == "Apply"]})
+    for c in rot_cases:
+        if len(chains) >= 2 + cap:
+            break
+        add({"init": c["init"], "warm": c["warm"], "batches": [c["first"]] if c["first"] else []})
+    return chains
+
+
 def _sig(v):
     return {"inv": v["inv"], "class": v["class"], "ev": v["row"]["ev"]}
 
@@ -174,7 +218,8 @@ def run(ctx):
     ctx.spec_copy()
 
     # ---- 0. build the harnesses while TLC works ------------------------------------------
-    bpool = ThreadPoolExecutor(max_workers=2)
+    bpool = ThreadPoolExecutor(max_workers=3)
+    fut_cons = bpool.submit(ctx.go_build_test, "consensus", ["zz_verif_c08_roundskip_test.go"], "verif", "consensus_c08")
     fut_types = bpool.submit(ctx.go_build_test, "types", ["zz_verif_c08_test.go"])
     fut_state = bpool.submit(ctx.go_build_test, "state", ["zz_verif_c08_test.go"], "verif", "state_c08")
 
@@ -309,6 +354,8 @@ def run(ctx):
     tin = {"cases": cases, "rotate": rot_cases, "hists": hists, "random": T["random_types"], "extreme": T["extreme"]}
     rows_t = _run_types(ctx, bin_types, tin, "main")
     rows_s = _run_store(ctx, bin_state, {"scheds": store_scheds, "random": T["random_store"]}, "main")
+    rs_chains = _roundskip_chains(rot_cases, store_scheds, T["rs_chains"])
+    rows_rs = _run_roundskip(ctx, fut_cons.result(), {"chains": rs_chains, "random": T["rs_random"], "maxk": 4}, "main")
     n_case_runs = sum(1 for r in rows_t["cases"] if r["ev"] == "Update" and not r["live"])
     if n_case_runs != len(cases):
         raise Undecided("harness executed %d of %d update cases" % (n_case_runs, len(cases)))
@@ -317,7 +364,7 @@ def run(ctx):
     vals = {}
     for name, rows, me in (("cases", rows_t["cases"], 1500), ("rotate", rows_t["rotate"], 1200),
                            ("hist", rows_t["hist"], 1500), ("extreme", rows_t["extreme"], 350),
-                           ("store", rows_s, 1000)):
+                           ("store", rows_s, 1000), ("roundskip", rows_rs, 2500)):
         vals[name] = core.validate_traces(ctx, TRACE, rows, max_events=me, label=name, timeout=1500)
 
     # ---- 5. verdict ---------------------------------------------------------------------------
@@ -339,7 +386,10 @@ def run(ctx):
     distinct = set()
     for rows in list(rows_t.values()) + [rows_s]:
         _nontrivial(rows, distinct)
-    all_rows = sum(len(r) for r in rows_t.values()) + len(rows_s)
+    for r in rows_rs:
+        if r["ev"] == "RoundSkip" and r["err"] == "none":
+            distinct.add(hashlib.sha1(json.dumps(["RoundSkip", r["pre"], r["to"] - r["from"]], sort_keys=True).encode()).hexdigest())
+    all_rows = sum(len(r) for r in rows_t.values()) + len(rows_s) + len(rows_rs)
     lookups = sum(len(r.get("loads", [])) for r in rows_s)
     tlc_all = r_us + [r_r] + store_runs + hist_runs
     sample_store = [r for r in rows_s if r["ev"] == "Apply"][:1]
@@ -374,6 +424,8 @@ def run(ctx):
         "store_graph_states_replayed": graph_states,
         "store_schedules": len(store_scheds),
         "lookups_on_real_store": lookups,
+        "round_skips_on_real_consensus_state": sum(1 for r in rows_rs if r["ev"] == "RoundSkip"),
+        "round_skip_chains": len(rs_chains),
         "events": {k: v["events"] for k, v in vals.items()},
         "conformance_drift": [{"what": d["what"], "detail": d.get("detail"), "step": _slim(d["row"])} for d in drift[:5]],
         "conformance_drift_count": len(drift),
@@ -411,6 +463,10 @@ def run(ctx):
         "with LoadLastABCIResponse after every save (both StoreOptions.DiscardABCIResponses settings) and, on 'crash' "
         "steps (node dies between the app's Commit and store.Save), the state is rebuilt from that copy with the real "
         "updateState as consensus/replay.go does; the Handshaker/mock-app plumbing itself is not executed",
+        "round skips: a real consensus.State (newStateWithConfig, our key not a validator, proposal creation stubbed) over "
+        "validator sets taken from the rotation cases, the store histories and seeded random histories calls "
+        "enterNewRound(height, k) from round 0 for k = 1..4 and walk-then-skip (0->1->3->6); cs.Validators must equal k "
+        "single rotations of the reference (ProposerDeterministic / roundskip)",
         "the spec models LoadValidators as repaired by proposed-fixes/C08-loadvalidators-per-height-increment.diff "
         "(one IncrementProposerPriority(1) per block); the code as found is the switch Weak_LoadSingleIncrement",
         "the model's checkpoint interval is 3..5; the real interval 100000 is exercised through chains whose "
@@ -464,6 +520,12 @@ def replay(ctx, path):
                 sched["ops"].append({"op": "Prune", "batch": [], "to": r["to"]})
         binp = ctx.go_build_test("state", ["zz_verif_c08_test.go"], "verif", "state_c08")
         rows = _run_store(ctx, binp, {"scheds": [sched], "random": 0}, "replay")
+    elif kind == "roundskip":
+        chain = prefix[0].get("chain")
+        if not chain:
+            raise Undecided("replay file has no chain")
+        binp = ctx.go_build_test("consensus", ["zz_verif_c08_roundskip_test.go"], "verif", "consensus_c08")
+        rows = _run_roundskip(ctx, binp, {"chains": [chain], "random": 0, "maxk": 4}, "replay")
     elif kind == "extreme":
         ctx.seed = int(rep.get("seed", ctx.seed))
         n = 150 if rep.get("tier") == "quick" else 3000
